@@ -27,3 +27,5 @@ def check(ctx: Ctx) -> None:
     # a cancelled group is gone only if its spawners were found and cancelled: a spawner dropped from the table while it is still
     # running keeps creating tasks under the cancelled name and re-creates the group (shared with C04/C07/C08)
     S.r_spawner_registry_who(ctx, "R10.8")
+    # what get_group_ids reports is what the register's set interface shows
+    N.r_register_faithful(ctx, "R10.9")
